@@ -1,6 +1,7 @@
 """mergeflow: typestate / taint / effect rules over the merge methods (DESIGN §4 C01-C06, C13, C20)."""
 from __future__ import annotations
 
+import ast
 from dataclasses import replace
 from typing import Dict, List, Optional
 
@@ -126,14 +127,41 @@ class MergeFlow(Engine):
                 if kind == 'META' and ne.tag == 'story':
                     self.find_('FRAME', st, node, f'remove(node={self.describe(n, st)})', 'metadata replacement removes a story')
 
+    def on_cmp_fork(self, st, node, left, right, taken):
+        if not taken:
+            return
+        blocks = {}
+        for v in (left, right):
+            if isinstance(v, StrV) and v.origin and v.origin[0] == 'text':
+                sym = v.origin[1][1]
+                e = st.heap.get(sym)
+                if isinstance(e, ElemE) and e.tag == 'mosSchema' and e.parent in st.heap:
+                    blocks[self.owner(Ref('elem', e.parent), st)] = e.parent
+        if 'RO' in blocks and ('MSG' in blocks or 'COPY' in blocks):
+            m = dict(st.mon.get('sym:schemacmp') or {})
+            m[blocks['RO']] = True
+            st.mon['sym:schemacmp'] = m
+
     def on_remove(self, st, node, parent, node_):
         self.count('remove', st, node)
+        if self.role[0] == 'META' and isinstance(node_, Ref) and node_.kind == 'elem':
+            ne = st.get(node_.sym)
+            if ne.prov == 'RO' and ne.tag == 'mosExternalMetadata' and node_.sym not in (st.mon.get('sym:schemacmp') or {}):
+                self.find_('META-SCHEMA', st, node, f'remove({self.describe(node_, st)})',
+                           'a mosExternalMetadata block is replaced without comparing its mosSchema with the carried block\'s')
+        if self.owner(parent, st) == 'COPY':
+            self.count('copy-mutation', st, node)
         self.check_frame(st, node, 'remove', parent, node_)
         self.mark_mutation(st, node, 'remove', parent)
         self.bump(st, node_, -1)
 
     def on_insert(self, st, node, parent, node_, idx, entry):
         self.count('insert', st, node)
+        if self.owner(parent, st) == 'COPY':
+            self.count('copy-mutation', st, node)
+            if isinstance(node_, Ref) and node_.kind == 'elem' and self.owner(node_, st) not in ('COPY',) and st.get(node_.sym).prov != 'COPY':
+                self.find_('PAYLOAD-PURE', st, node, f'insert(parent={self.describe(parent, st)}, node={self.describe(node_, st)})',
+                           'a node that is not part of the copied payload is inserted into it')
         self.check_frame(st, node, 'insert', parent, node_)
         self.check_share(st, node, 'insert', parent, node_)
         self.mark_mutation(st, node, 'insert', parent)
@@ -180,6 +208,12 @@ class MergeFlow(Engine):
             self.find_('MSG-READONLY', st, node, f'{self.describe(elem, st)}.{attr} = ...', 'the message tree is modified')
         else:
             self.count('retag', st, node)
+            if attr != 'tag' or not isinstance(value, Const):
+                self.find_('PAYLOAD-PURE', st, node, f'{self.describe(elem, st)}.{attr} = ...',
+                           'the copied payload is edited beyond the documented re-tagging')
+            elif e.prov in ('COPY',) and value.v not in ('story', 'item', 'roCreate'):
+                self.find_('PAYLOAD-PURE', st, node, f'{self.describe(elem, st)}.tag = {value.v!r}',
+                           'a carried element is re-tagged to something other than story/item/roCreate')
 
     def mark_inserted(self, st, n):
         if isinstance(n, Ref) and n.kind == 'elem':
@@ -235,13 +269,28 @@ class MergeFlow(Engine):
     def pending(self, st) -> frozenset:
         return st.mon.get('pending') or frozenset()
 
-    def on_lookup(self, st, node, fn, parent, tag, id, result, mode, iddescr, again=False):
+    def on_lookup(self, st, node, fn, parent, tag, id, result, mode, iddescr, again=False, tagval=None):
         func, n, file, line = self.attrib(st, node)
         cons = f'{fn.short}({self.describe(parent, st)}, {tag}, id={iddescr})'
         self.count('lookup', st, node)
         cons_key = norm(n) if n is not None else cons
         if not self.in_merge(st):
             return
+        if id is not None:
+            self.count('id-lookup', st, node)
+        if tag == 'item':
+            self.count('item-lookup', st, node)
+            pe = st.get(parent.sym)
+            if not (pe.tag == 'story' and pe.lookup is not None and pe.prov == 'RO'):
+                self.find_('STORY-SCOPED', st, node, cons, 'an item is looked up outside the story located through the message\'s story ID')
+        if self.role[0] == 'META' and (mode == 'tag' or tag == 'mosExternalMetadata'):
+            self.count('meta-replace', st, node)
+            if mode == 'tag':
+                x = tagval.origin[1][1] if isinstance(tagval, StrV) and tagval.origin and tagval.origin[0] == 'tag' else None
+                if x is None or ('tagne', x, 'mosExternalMetadata') not in st.facts:
+                    self.find_('META-SCHEMA', st, node, cons,
+                               'the element to replace is chosen by tag name only although the carried tag may be mosExternalMetadata: '
+                               'a block with a different mosSchema would be overwritten')
         if isinstance(id, NoneV) and mode == 'wildcard':
             self.find_('WILDCARD', st, node, cons,
                        'the ID operand may be None (blank or absent reference) and the lookup then selects the first child of that tag')
@@ -329,6 +378,46 @@ class MergeFlow(Engine):
         else:
             self.find_('ENUM-PER-ID', st, node, f'{self.describe(parent, st)}.find({tag!r})',
                        f'only the first {tag} of a multi-ID <{pe.tag}> is read')
+
+    def instantiate(self, c, args, kwargs, st, node):
+        if 'id' in kwargs and node is not None and self.in_merge(st):
+            self.count('explicit-id', st, node)
+        return super().instantiate(c, args, kwargs, st, node)
+
+    def on_setfield(self, obj, name, old, new, st, node):
+        e = st.get(obj.sym)
+        if e.cls in self.merge_family and self.in_merge(st):
+            if isinstance(new, Ref) and new.kind == 'elem' and self.owner(new, st) == 'RO':
+                cname = e.cls.split(':')[-1]
+                if not self.prog.classes[e.cls].is_subclass_of(self.prog.cls('RunningOrder')) or cname == self.cname:
+                    self.find_('NO-RO-CAPTURE', st, node, f'self.{name} = {self.describe(new, st)}',
+                               'the message object keeps a reference into the running order')
+
+    def run_loop(self, itval, st, body, node, joiner=None):
+        in_merge_frame = st.frames and st.frame.func is not None and st.frame.func.name == 'merge' and st.frame.func.cls is not None
+        from_msg = False
+        if in_merge_frame and isinstance(node, (ast.For,)):
+            d = self.describe(itval, st)
+            from_msg = 'self.xml' in d
+            if from_msg:
+                func, n, file, line = self.attrib(st, node)
+                self.sites.setdefault('payload-loop', set()).add((func, 'for ... in ' + norm(node.iter)))
+                bad = [type(x).__name__ for x in ast.walk(node.iter) if isinstance(x, (ast.Slice, ast.IfExp, ast.ListComp, ast.GeneratorExp))]
+                bad += [x.func.id for x in ast.walk(node.iter) if isinstance(x, ast.Call) and isinstance(x.func, ast.Name)
+                        and x.func.id in ('reversed', 'sorted', 'set', 'filter', 'frozenset')]
+                if bad:
+                    self.find_('PAYLOAD-ALL', st, node.iter, 'for ... in ' + norm(node.iter),
+                               f'the merge filters, slices or reorders the carried/named elements before applying them ({bad})')
+        exits, escapes = super().run_loop(itval, st, body, node, joiner=joiner)
+        if from_msg:
+            for kind, s in exits:
+                if kind == 'break':
+                    self.find_('PAYLOAD-ALL', s, node, 'for ... in ' + norm(node.iter), 'a break leaves the remaining carried/named elements unapplied')
+            for ctl, s in escapes:
+                if isinstance(ctl, tuple) and ctl[0] == 'ret':
+                    self.find_('NO-EARLY-EXIT', s, node, 'for ... in ' + norm(node.iter),
+                               'the merge returns from inside the loop over named elements: the remaining ones are skipped silently')
+        return exits, escapes
 
     # --------------------------------------------------------------- driver
     def run(self):
